@@ -10,7 +10,12 @@ use std::cell::Cell;
 use vmodel::text;
 
 pub fn subs() -> Vec<Sub> {
-    vec![Sub { name: "generated", run: run_generated }, Sub { name: "grid", run: run_grid }, Sub { name: "text", run: run_text }]
+    vec![
+        Sub { name: "generated", run: run_generated },
+        Sub { name: "grid", run: run_grid },
+        Sub { name: "text", run: run_text },
+        Sub { name: "pairsweep", run: run_pairsweep },
+    ]
 }
 
 /// Every configuration: generated hashes satisfy the strict conditions.
@@ -140,6 +145,16 @@ fn run_text(ctx: &Ctx) -> CheckResult {
         )?;
     }
     Ok(())
+}
+
+/// Strict builds: the complete 256x256 domain of every header digit pair (the two gates sit
+/// right behind the pair decoders) through the text parser, judged by the strict model.
+fn run_pairsweep(ctx: &Ctx) -> CheckResult {
+    if !ctx.api.caps().strict {
+        ctx.skipped("pairsweep: not a strict-parser build");
+        return Ok(());
+    }
+    super::c05::run_pairsweep(ctx)
 }
 
 pub fn replay(ctx: &Ctx, check: &str, case: &Value) -> Result<(), String> {
